@@ -24,6 +24,15 @@ typedef soplex::VectorBase<double> DV;
 typedef soplex::DSVectorBase<double> DSV;
 typedef soplex::SVectorBase<double> SV;
 typedef std::vector<std::pair<int, Q>> SpQ;
+// semi-sparse vectors are built the way every in-tree owner builds them (dimension 0, then reDim): reDim reserves
+// dim+1 index slots, which vSolveUpdateRight relies on (it writes idx[n] before it knows whether the entry is new)
+struct XS : public SSV
+{
+   XS(int n, std::shared_ptr<soplex::Tolerances> t) : SSV(0, t)
+   {
+      reDim(n);
+   }
+};
 typedef std::vector<std::vector<Q>> MatQ;
 
 enum UpdHow { U_4U1 = 0, U_4U2D = 1, U_4U2S = 2, U_4U3D = 3, U_4U3S = 4, U_ETA_SOLVE = 5, U_ETA_NOETA = 6, U_NHOW = 7 };
@@ -139,11 +148,14 @@ static void gen(Case& c)
    int maxn = std::min(60, std::max(1, 2 + sz * 6 / 10));
    maxn = (int) std::min<long>(maxn, opts().xi("maxdim", 60));
    int n = g.n = R(1, maxn);
-   int fam = n >= 2 ? W({30, 15, 20, 20, 15}) : 0;   // 0 sparse dd, 1 triangular, 2 identity+bump, 3 singletons, 4 dense dd
+   // 0 sparse dd, 1 triangular, 2 identity+bump, 3 singletons, 4 dense dd, 5 network basis (totally unimodular)
+   int fam = n >= 2 ? W({28, 14, 18, 18, 12, 10}) : 0;
    g.scaled = P(35);
-   int sing = P(12) ? 1 + W({20, 20, 25, 15, 20}) : 0;   // 1 zero col, 2 dup col, 3 dependent col, 4 zero row, 5 dependent row
+   // 1 zero col, 2 dup col, 3 dependent col, 4 zero row, 5 dependent row, 6 cycle in a network basis
+   int sing = P(12) ? 1 + W({20, 20, 25, 15, 20}) : 0;
    if(n < 2 && sing != 0) sing = 1;
-   if(sing == 2 || sing == 3 || sing == 5) g.scaled = false;   // keeps "should be zero" pivots far below epsilonPivot
+   if(fam == 5 && (sing == 3 || sing == 5)) sing = 6;
+   if(fam != 5 && (sing == 2 || sing == 3 || sing == 5)) g.scaled = false;   // keeps "should be zero" pivots small
 
    // natural form: column j dominant on the diagonal
    MatQ A0(n, std::vector<Q>(n, Q(0)));
@@ -202,6 +214,45 @@ static void gen(Case& c)
    g.piv.assign(n, 0);
    for(int i = 0; i < n; i++) for(int j = 0; j < n; j++) g.A[rp[i]][cp[j]] = A0[i][j];
    for(int j = 0; j < n; j++) g.piv[cp[j]] = rp[j];
+   if(fam == 5)
+   {
+      // spanning forest: node order[t] hangs on an earlier node (arc column +s/-s) or is a root (slack column +-e).
+      // All elimination arithmetic on such a matrix is exact (+-1, or powers of two when scaled) in any pivot order.
+      for(auto& row : g.A) std::fill(row.begin(), row.end(), Q(0));
+      std::vector<int> order = genPerm(n), root(n, 0), colOfRoot(n, -1);
+      std::vector<std::pair<int, int>> arcs;
+      for(int t = 0; t < n; t++)
+      {
+         int node = order[t], col = cp[t], sgn = P(50) ? 1 : -1;
+         if(t == 0 || P(25))
+         {
+            g.A[node][col] = sgn;
+            root[node] = node;
+            colOfRoot[node] = col;
+         }
+         else
+         {
+            int head = order[R(0, t - 1)];
+            g.A[node][col] = sgn;
+            g.A[head][col] = -sgn;
+            root[node] = root[head];
+            arcs.push_back({node, head});
+         }
+      }
+      if(sing == 6 && arcs.empty()) sing = 2;
+      if(sing == 6)
+      {
+         // replace the slack of a tree with >= 2 nodes by an arc inside that tree: its rows then sum to zero
+         auto a = arcs[R(0, (int) arcs.size() - 1)];
+         int r = root[a.first], col = colOfRoot[r];
+         std::vector<int> members;
+         for(int i = 0; i < n; i++) if(root[i] == r) members.push_back(i);
+         int k1 = R(0, (int) members.size() - 1), k2 = (k1 + R(1, (int) members.size() - 1)) % (int) members.size();
+         for(int i = 0; i < n; i++) g.A[i][col] = 0;
+         g.A[members[k1]][col] = 1;
+         g.A[members[k2]][col] = -1;
+      }
+   }
    g.e1.assign(n, 0);
    g.e2.assign(n, 0);
    if(g.scaled) for(int i = 0; i < n; i++)
@@ -222,7 +273,7 @@ static void gen(Case& c)
    }
    else if(sing == 2)
    {
-      int c1 = R(0, n - 1), c2 = (c1 + R(1, n - 1)) % n, f = P(50) ? 1 : NZ(3);
+      int c1 = R(0, n - 1), c2 = (c1 + R(1, n - 1)) % n, f = fam == 5 ? (P(50) ? 1 : -1) : P(50) ? 1 : NZ(3);
       for(int i = 0; i < n; i++) g.A[i][c2] = g.A[i][c1] * f;
    }
    else if(sing == 3)
@@ -249,14 +300,16 @@ static void gen(Case& c)
    static const char* mk[] = {"1/100", "1/10000", "1/10", "9/10"};
    c.recs.push_back(Rec("utype").add(utype));
    c.recs.push_back(Rec("markowitz").add(mk[W({40, 20, 20, 20})]));
-   c.recs.push_back(Rec("expect").add(sing ? 1 : 0));
+   // expect: 0 regular and well conditioned; 1 exactly singular and detection is rounding-free (structural, or all
+   // elimination arithmetic exact); 2 exactly singular, detection depends on rounding (observed, not judged)
+   c.recs.push_back(Rec("expect").add(sing == 0 ? 0 : (sing == 1 || sing == 4 || fam == 5) ? 1 : 2));
    c.recs.push_back(Rec("fam").add(fam).add(g.scaled ? 1 : 0).add(sing));
    if(sing) return;
 
    int nops = R(1, 4 + sz / 5);
    for(int t = 0; t <= nops; t++)
    {
-      int what = t == nops ? 0 : W({50, 45, 5});
+      int what = t == nops ? 0 : W({50, fam == 5 ? 0 : 45, 5});
       if(what == 0)
       {
          Rec r("solve");
@@ -334,7 +387,9 @@ static void gen(Case& c)
          SpQ nc = scaledColumn(g, a, ecol);
          for(int i = 0; i < n; i++) g.A[i][idx] = a[i];
          g.e2[idx] = ecol;
-         int how = utype == 1 ? W({40, 15, 15, 15, 15}) : W({25, 10, 10, 10, 10, 20, 15});
+         // change(idx, col) with neither eta nor a prior solve4update is outside the protocol of every in-tree caller
+         // (and broken, see the report): only driven on request (--x noeta=1)
+         int how = utype == 1 ? W({40, 15, 15, 15, 15}) : W({25, 10, 10, 10, 10, 20, opts().xi("noeta", 0) ? 15 : 0});
          Rec r("upd");
          r.add(idx).add(how).add(R(0, 1)).add(P(15) ? 1 + R(0, n - 1) : 0);
          putVec(r, nc);
@@ -594,7 +649,7 @@ static Verdict run(const Case& c)
    const Rec* fr = c.find("fam");
    int fam = fr ? (int) fr->i(0) : -1, scaled = fr ? (int) fr->i(1) : 0, sing = fr ? (int) fr->i(2) : 0;
    bool exactSingular = rankQ(ref.M) < n;
-   if(exactSingular != (expect == 1))
+   if(exactSingular != (expect != 0))
    {
       v.fail("HARNESS: case claims the wrong exact singularity");
       return v;
@@ -636,10 +691,20 @@ static Verdict run(const Case& c)
       return v;
    }
    v.nontrivial = n >= 10 && nucleus;
-   if(expect == 1)
+   if(expect != 0)
    {
-      e.count("singular.kind" + std::to_string(sing) + (st == LU::SINGULAR ? ".detected" : ".missed"));
-      if(st != LU::SINGULAR) v.fail("exactly singular matrix loaded with status " + std::to_string((int) st) + " instead of SINGULAR");
+      const char* cls = expect == 1 ? "exact_arith" : "rounding_dependent";
+      e.count(std::string("singular.") + cls + ".kind" + std::to_string(sing) + (st == LU::SINGULAR ? ".detected" : ".missed"));
+      // expect 2: whether the computed "zero" pivot falls below the absolute tolerance epsilonPivot depends on rounding
+      // and element growth, nothing can be asserted soundly (see the report); it is measured by the counter above
+      if(st != LU::SINGULAR && (expect == 1 || opts().xi("strict_singular", 0)))
+      {
+         char buf[240];
+         snprintf(buf, sizeof buf,
+                  "exactly singular matrix loaded with status %d instead of SINGULAR (dim %d, max/min |U_ii| = %.3e, stability %.3e)",
+                  (int) st, n, (double) lu.matrixMetric(0), (double) lu.stability());
+         v.fail(buf);
+      }
       return v;
    }
    e.count("load.status." + std::to_string((int) st));
@@ -735,14 +800,14 @@ static Verdict run(const Case& c)
          }
          else if(var == S_R_SS)
          {
-            SSV x(n, tol), b(n, tol);
+            XS x(n, tol), b(n, tol);
             toSSV(b1, b);
             lu.solveRight(x, b);
             chkS(w, x) && chkR(w, vals(x, n), q1, false);
          }
          else if(var == S_R_SSV)
          {
-            SSV x(n, tol);
+            XS x(n, tol);
             lu.solveRight(x, s1);
             chkS(w, x) && chkR(w, vals(x, n), q1, false);
          }
@@ -755,14 +820,14 @@ static Verdict run(const Case& c)
          }
          else if(var == S_L_SS)
          {
-            SSV x(n, tol), b(n, tol);
+            XS x(n, tol), b(n, tol);
             toSSV(b1, b);
             lu.solveLeft(x, b);
             chkS(w, x) && chkR(w, vals(x, n), q1, true);
          }
          else if(var == S_L_SSV)
          {
-            SSV x(n, tol);
+            XS x(n, tol);
             lu.solveLeft(x, s1);
             chkS(w, x) && chkR(w, vals(x, n), q1, true);
          }
@@ -776,7 +841,7 @@ static Verdict run(const Case& c)
             lu.solveLeft(r2, d);
             toDV(b3, d);
             lu.solveLeft(r3, d);
-            SSV x(n, tol), rhs2(n, tol), rhs3(n, tol);
+            XS x(n, tol), rhs2(n, tol), rhs3(n, tol);
             toSSV(b2, rhs2);
             toSSV(b3, rhs3);
             if(var == S_L2_D)
@@ -788,7 +853,7 @@ static Verdict run(const Case& c)
             }
             else if(var == S_L2_S)
             {
-               SSV y(n, tol);
+               XS y(n, tol);
                lu.solveLeft(x, y, s1, rhs2);
                chkS(w, x) && chkS(w, y) && chkR(w, vals(x, n), q1, true) && chkR(w, vals(y, n), q2, true)
                && chkA(w, vals(x, n), vals(r1, n), q1, true) && chkA(w, vals(y, n), vals(r2, n), q2, true);
@@ -803,7 +868,7 @@ static Verdict run(const Case& c)
             }
             else
             {
-               SSV y(n, tol), z(n, tol);
+               XS y(n, tol), z(n, tol);
                lu.solveLeft(x, y, z, s1, rhs2, rhs3);
                chkS(w, x) && chkS(w, y) && chkS(w, z) && chkR(w, vals(x, n), q1, true) && chkR(w, vals(y, n), q2, true)
                && chkR(w, vals(z, n), q3, true) && chkA(w, vals(x, n), vals(r1, n), q1, true)
@@ -823,6 +888,7 @@ static Verdict run(const Case& c)
             break;
          }
          if(utype == 1 && how >= U_ETA_SOLVE) how = U_4U1;   // never the FT branch without a prior solveRight4update
+         if(how == U_ETA_NOETA && !opts().xi("noeta", 0)) how = U_ETA_SOLVE;
          if(how >= U_ETA_SOLVE) pre = 0;                     // change(.., eta) is only meaningful with no update vector set up
          if(sinceLoad >= 40 && !reload("reload.maxupdates")) break;
          DSV ncv;
@@ -840,7 +906,7 @@ static Verdict run(const Case& c)
          {
             // a solve4update whose pivot is then not used (the next solve4update replaces the update vector)
             e.count("upd.with_discarded_solve4update");
-            SSV x0(n, tol);
+            XS x0(n, tol);
             lu.solveRight4update(x0, cols[pre - 1]);
             std::vector<Q> qc(n);
             for(int i = 0; i < n; i++) qc[i] = ref.M[i][pre - 1];
@@ -855,7 +921,7 @@ static Verdict run(const Case& c)
             toDV(b3, d);
             lu.solveRight(r3, d);
          }
-         SSV x(n, tol), rhs2(n, tol), rhs3(n, tol);
+         XS x(n, tol), rhs2(n, tol), rhs3(n, tol);
          toSSV(b2, rhs2);
          toSSV(b3, rhs3);
          bool okSolve = true;
@@ -868,7 +934,7 @@ static Verdict run(const Case& c)
          }
          else if(how == U_4U2S)
          {
-            SSV y(n, tol);
+            XS y(n, tol);
             lu.solve2right4update(x, y, ncv, rhs2);
             okSolve = chkS(w, y) && chkR(w, vals(y, n), q2, false) && chkA(w, vals(y, n), vals(r2, n), q2, false);
          }
@@ -881,7 +947,7 @@ static Verdict run(const Case& c)
          }
          else if(how == U_4U3S)
          {
-            SSV y(n, tol), z(n, tol);
+            XS y(n, tol), z(n, tol);
             lu.solve3right4update(x, y, z, ncv, rhs2, rhs3);
             okSolve = chkS(w, y) && chkS(w, z) && chkR(w, vals(y, n), q2, false) && chkR(w, vals(z, n), q3, false)
                       && chkA(w, vals(y, n), vals(r2, n), q2, false) && chkA(w, vals(z, n), vals(r3, n), q3, false);
